@@ -53,11 +53,36 @@ theorem week_ok (now : Nat) (h0 : GPS_TO_UNIX_OFFSET ≤ now) (h1 : now < 2 ^ 63
     Outcome.bind_ok, addU_ok, subU_ok, mulU_ok, divU_ok, Nat.reduceMul, Nat.reducePow]
   refine ⟨_, rfl, ?_, ?_, ?_⟩ <;> omega
 
+/-- C18, second clause, exact domain (audit L1): the same conclusion for EVERY `u64` value
+    at or after the GPS epoch, `GPS_TO_UNIX_OFFSET ≤ now < 2^64`.  (The obvious sufficient
+    condition for the two additions not to overflow is `now ≤ 2^64 − 19`; the last 18 values are
+    fine as well because the week that contains them starts 370 815 s before `2^64`.)
+    `week_ok` above is the instance `now < 2^63`. -/
+theorem week_ok_u64 (now : Nat) (h0 : GPS_TO_UNIX_OFFSET ≤ now) (h1 : now < 2 ^ 64) :
+    ∃ w, gps_week_in_s now = .ok w ∧ w ≤ now ∧ now - w < WEEK_S ∧
+      (w + LEAP_SECONDS_SINCE_2017 - GPS_TO_UNIX_OFFSET) % WEEK_S = 0 := by
+  unfold GPS_TO_UNIX_OFFSET at h0
+  unfold WEEK_S
+  simp only [Nat.reducePow] at h1
+  simp (disch := omega) only [gps_week_in_s, LEAP_SECONDS_SINCE_2017, GPS_TO_UNIX_OFFSET,
+    Outcome.bind_ok, addU_ok, subU_ok, mulU_ok, divU_ok, Nat.reduceMul]
+  refine ⟨_, rfl, ?_, ?_, ?_⟩ <;> omega
+
+/-- … and the lower bound is sharp: before the GPS epoch the first subtraction underflows
+    (a panic with `overflow-checks = true`), so the domain of `week_ok_u64` is exactly the set of
+    `u64` values on which the function returns. -/
+theorem week_before_epoch_panics (now : Nat) (h : now < GPS_TO_UNIX_OFFSET) :
+    gps_week_in_s now = .panic .subOverflow := by
+  unfold GPS_TO_UNIX_OFFSET at h
+  simp (disch := omega) only [gps_week_in_s, LEAP_SECONDS_SINCE_2017, GPS_TO_UNIX_OFFSET,
+    Outcome.bind_ok, mulU_ok, Nat.reduceMul, subU_panic, Outcome.bind_panic]
+
 /-- Non-vacuity: the hypotheses are met by ordinary values, and the statement is
     sharp at the first second of the week (the input on which the unrepaired code
     panicked). -/
 example : since_gps_week_to_since_today 5000000000 = .ok 86387000000000 := by decide
 example : since_gps_week_to_since_today 0 = .ok 86382000000000 := by decide
 example : gps_week_in_s 1790000000 = .ok 1789862382 := by decide
+example : gps_week_in_s (2 ^ 64 - 1) = .ok 18446744073709180782 := by decide
 
 end Rs1090.Props.C18
